@@ -33,13 +33,15 @@ META = {
                     "0 < zeta < 1 (the statement excludes the end points)", "sum |w| > 0",
                     "rank arrival orders are enumerated (thread start permutations), the data dimension is solver-quantified"],
     "bounds": {"quick": "N = 2, 3 walkers for every variant (restricted + unrestricted containers); MPI with R = 1 (not_a_comm), R = 2 and 3 ranks x 1 walker, "
-                        "every arrival order", "thorough": "N = 4 (jitted, NumPy), R = 2 x 2 walkers"},
+                        "every arrival order", "thorough": "N = 4 for the jitted and propagator-level entry points"},
     "outside": "N > 4, real MPI runtime, floating-point ties at breakpoints, zeta = 0",
 }
 
 
 class FakeComm:
-    """R ranks in one process: rank-ordered Gather / Scatter with barriers (model of mpi4py semantics)"""
+    """R ranks in one process: rank-ordered Gather / Scatter with barriers (model of mpi4py semantics).  The rank threads are scheduled
+    cooperatively: exactly one of them runs at any time (`run` lock), and it hands over only while it waits in a collective call - z3
+    terms are created by the ranks and z3 contexts are not thread-safe."""
 
     class Shared:
         def __init__(self, size):
@@ -47,6 +49,7 @@ class FakeComm:
             self.barrier = threading.Barrier(size)
             self.slots = {}
             self.lock = threading.Lock()
+            self.run = threading.Lock()
 
     def __init__(self, shared, rank):
         self.sh, self.rank = shared, rank
@@ -57,17 +60,24 @@ class FakeComm:
     def Get_rank(self):
         return self.rank
 
+    def _wait(self):
+        self.sh.run.release()
+        try:
+            self.sh.barrier.wait()
+        finally:
+            self.sh.run.acquire()
+
     def Barrier(self):
-        self.sh.barrier.wait()
+        self._wait()
 
     def Gather(self, sendbuf, recvbuf, root=0):
         with self.sh.lock:
             self.sh.slots[("g", self.rank)] = np.array(sendbuf, dtype=object, copy=True)
-        self.sh.barrier.wait()
+        self._wait()
         if self.rank == root:
             parts = [self.sh.slots[("g", r)] for r in range(self.sh.size)]
             recvbuf[...] = np.concatenate([p.reshape((-1,) + p.shape[1:]) if p.ndim else p.reshape(1) for p in parts], axis=0).reshape(recvbuf.shape)
-        self.sh.barrier.wait()
+        self._wait()
 
     def Scatter(self, sendbuf, recvbuf, root=0):
         if self.rank == root:
@@ -75,9 +85,9 @@ class FakeComm:
             with self.sh.lock:
                 for r in range(self.sh.size):
                     self.sh.slots[("s", r)] = np.array(sendbuf[r * n:(r + 1) * n], dtype=object, copy=True)
-        self.sh.barrier.wait()
+        self._wait()
         recvbuf[...] = self.sh.slots[("s", self.rank)].reshape(recvbuf.shape)
-        self.sh.barrier.wait()
+        self._wait()
 
 
 class Runner:
@@ -312,6 +322,8 @@ def _run(Rn, variant, N, R, order):
                 active = explore.ACTIVE
 
                 def work(r):
+                    if R > 1:
+                        sh.run.acquire()
                     try:
                         comm = config.not_a_comm() if R == 1 else FakeComm(sh, r)
                         if variant == "mpi":
@@ -325,6 +337,12 @@ def _run(Rn, variant, N, R, order):
                             sh.barrier.abort()
                         except Exception:
                             pass
+                    finally:
+                        if R > 1:
+                            try:
+                                sh.run.release()
+                            except RuntimeError:
+                                pass
                 if R == 1:
                     work(0)
                 else:
@@ -392,6 +410,8 @@ def _run(Rn, variant, N, R, order):
         for lab, post in posts.items():
             Rn.check(f"{lab}/path{k}", base + [z3.Not(post)], variables, concrete)
     Rn.res["paths"] = k
+    if getattr(ex, "unproved_failures", 0):
+        Rn.res["inconclusive"].append(f"{ex.unproved_failures} path(s) admitted after an unknown feasibility query ended in an exception of the code under test")
     cover = z3.Solver()
     cover.set("timeout", 60000)
     cover.add(*pre)
@@ -415,18 +435,17 @@ def cases(tier):
     out = []
     Ns = (2, 3) if tier == "quick" else (2, 3, 4)
     for N in Ns:
-        for v in ("jit", "jit_uhf", "np", "local_r", "local_u"):
+        # N = 4 only for the jitted variants: for the NumPy / MPI routines the branch-feasibility queries (products zeta * total weight
+        # with four absolute values) come back `unknown` within the 20 s budget (measured), so those cases could only be inconclusive
+        for v in ("jit", "jit_uhf", "np", "local_r", "local_u") if N < 4 else ("jit", "jit_uhf", "local_r", "local_u"):
             out.append({"variant": v, "N": N})
-        for v in ("mpi", "mpi_uhf"):
-            out.append({"variant": v, "N": N, "R": 1, "order": [0]})
+        if N < 4:
+            for v in ("mpi", "mpi_uhf"):
+                out.append({"variant": v, "N": N, "R": 1, "order": [0]})
     for v in ("mpi", "mpi_uhf"):
         for R in (2, 3):
             for order in itertools.permutations(range(R)):
                 out.append({"variant": v, "N": R, "R": R, "order": list(order)})
-    if tier == "thorough":
-        for v in ("mpi", "mpi_uhf"):
-            for order in itertools.permutations(range(2)):
-                out.append({"variant": v, "N": 4, "R": 2, "order": list(order)})
     return out
 
 
